@@ -74,12 +74,55 @@ static const char *garbage_value(const char *attr, char *tmp, size_t n)
   static const char *gen[] = { "0", "-1", "1", "4294967295", "4294967296", "18446744073709551615", "18446744073709551616", "", "abc", "0x", "0xf...f", "0x1,", "0xffffffff,0xffffffff,0xffffffff",
                                "0x00000000", "2147483648", "-2147483649", "1e99", " ", "0x0,0x0,0x1", "&amp;", "99999999999999999999999999999999", "0xf...f,0x0" };
   if (!strcmp(attr, "type")) { static const char *t[] = { "Machine", "PU", "NUMANode", "Package", "Core", "L1Cache", "L3iCache", "Group", "Misc", "Bridge", "PCIDev", "OSDev", "MemCache", "Die", "Cache", "Socket", "Node", "Foo", "", "L9Cache" }; return t[hv_below(&R, 20)]; }
+  if (!strcmp(attr, "name") && hv_chance(&R, 2, 3)) { static const char *t[] = { "Capacity", "Locality", "Bandwidth", "Latency", "ReadBandwidth", "WriteLatency", "NVLinkBandwidth", "XGMIBandwidth", "XGMIHops", "NUMALatency", "MemoryTier", "CoreType", "FrequencyMaxMHz", "Backend", "hwlocVersion", "" }; return t[hv_below(&R, 16)]; }
   if (!strcmp(attr, "osdev_type")) { static const char *t[] = { "0", "1", "127", "128", "256", "4294967296", "18446744073709551615", "-1", "x" }; return t[hv_below(&R, 9)]; }
   if (!strcmp(attr, "version")) { static const char *t[] = { "1.0", "2.0", "2.1", "3.0", "3.1", "9.9", "0.0", "", "abc", "2", "3.0.0", "-3.0" }; return t[hv_below(&R, 12)]; }
   if (!strcmp(attr, "length") || !strcmp(attr, "nbobjs") || !strcmp(attr, "depth") || !strcmp(attr, "cache_type") || !strcmp(attr, "bridge_type") || !strcmp(attr, "kind") || !strcmp(attr, "flags")) {
     static const char *t[] = { "0", "1", "2", "3", "5", "100", "1000000", "4294967295", "4294967297", "-1", "", "0-1", "1-0", "1-1", "7-7", "x" }; return t[hv_below(&R, 16)]; }
   if (hv_chance(&R, 1, 12)) { size_t l = 200 + (size_t)hv_below(&R, n - 201); memset(tmp, hv_chance(&R, 1, 2) ? '9' : 'f', l); tmp[l] = 0; return tmp; }
   return gen[hv_below(&R, sizeof gen / sizeof *gen)];
+}
+
+/* consistent renumbering: every gp_index and every reference to one (memattr targets / initiators, gp-indexed and heterogeneous
+ * distances indexes) is shifted by the same constant, so a valid document stays valid but carries very large identifiers */
+static char *gp_shift(const char *txt, size_t len, size_t *outlen, uint64_t K)
+{
+  struct xdoc d; xparse(&d, txt, len);
+  struct hv_str out; hv_str_init(&out);
+  size_t i = 0;
+  while (i < len) {
+    if ((i + 10 <= len && !memcmp(txt + i, "gp_index=\"", 10)) || (i + 8 <= len && !memcmp(txt + i, " id=\"obj", 8))) {
+      size_t pl = txt[i] == ' ' ? 8 : 10;
+      hv_str_addn(&out, txt + i, pl); i += pl;
+      char *end; unsigned long long v = strtoull(txt + i, &end, 10);
+      if (end != txt + i) { hv_str_add(&out, "%llu", (unsigned long long)(v + K)); i = (size_t)(end - txt); }
+      continue;
+    }
+    /* an <indexes> element below gp-indexed or heterogeneous distances: rewrite the numbers and the length attribute */
+    int handled = 0;
+    for (unsigned k = 0; k < d.nn && !handled; k++) {
+      struct xnode *x = &d.n[k];
+      if (x->s != i || strcmp(x->name, "indexes") || x->selfclose || x->parent < 0) continue;
+      struct xnode *pa = &d.n[x->parent]; int hetero = !strcmp(pa->name, "distances2hetero"), gp = 0;
+      if (!hetero && !strcmp(pa->name, "distances2")) { struct xattr at[40]; unsigned na = xattrs(&d, pa, at, 40); for (unsigned a = 0; a < na; a++) if (at[a].ne - at[a].ns == 8 && !memcmp(txt + at[a].ns, "indexing", 8) && at[a].ve - at[a].vs == 2 && !memcmp(txt + at[a].vs, "gp", 2)) gp = 1; }
+      if (!hetero && !gp) continue;
+      size_t cs = x->e, ce = cs; while (ce < len && txt[ce] != '<') ce++;
+      struct hv_str c; hv_str_init(&c);
+      size_t p = cs;
+      while (p < ce) {
+        if (isdigit((unsigned char)txt[p]) && (p == cs || txt[p - 1] == ' ' || txt[p - 1] == ':' || txt[p - 1] == '\n')) { char *end; unsigned long long v = strtoull(txt + p, &end, 10); hv_str_add(&c, "%llu", (unsigned long long)(v + K)); p = (size_t)(end - txt); }
+        else { hv_str_addn(&c, txt + p, 1); p++; }
+      }
+      hv_str_add(&out, "<indexes length=\"%zu\">", c.len);
+      hv_str_addn(&out, c.s, c.len); hv_str_free(&c);
+      i = ce; handled = 1;
+    }
+    if (handled) continue;
+    hv_str_addn(&out, txt + i, 1); i++;
+  }
+  xfree(&d);
+  *outlen = out.len;
+  return out.s;
 }
 
 /* apply one random structure-aware mutation to txt; returns a new malloc'ed string (NUL-terminated), fills m */
@@ -89,7 +132,7 @@ static char *mutate_once(const char *txt, size_t len, size_t *outlen, struct mut
   struct hv_str out; hv_str_init(&out);
   memset(m, 0, sizeof *m);
   char tmp[1024];
-  unsigned op = (unsigned)hv_below(&R, 20);
+  unsigned op = (unsigned)hv_below(&R, 22);
   if (!d.nn) op = 19;
   struct xnode *x = d.nn ? &d.n[hv_below(&R, d.nn)] : NULL;
   /* prefer non-object elements half of the time (distances, memattr, cpukind, info, support, userdata, page_type ...) */
@@ -154,6 +197,17 @@ static char *mutate_once(const char *txt, size_t len, size_t *outlen, struct mut
     for (unsigned i = 0; i < d.nn; i++) if (pos >= d.n[i].s && pos < d.n[i].e) { snprintf(m->elem, sizeof m->elem, "%s", d.n[i].name); struct xattr a2[40]; unsigned n2 = xattrs(&d, &d.n[i], a2, 40); for (unsigned k = 0; k < n2; k++) if (pos >= a2[k].ns && pos <= a2[k].ve) snprintf(m->attr, sizeof m->attr, "%.*s", (int)(a2[k].ne - a2[k].ns), txt + a2[k].ns); }
     char c = (char)(1 + hv_below(&R, 255));
     switch (hv_below(&R, 3)) { case 0: build(&out, txt, len, pos, pos + 1, &c, 1); break; case 1: build(&out, txt, len, pos, pos, &c, 1); break; default: build(&out, txt, len, pos, pos + 1 + (size_t)hv_below(&R, 8) > len ? len : pos + 1, NULL, 0); break; }
+  } else if (op >= 20) { /* inject a side-structure element with a well-known name before </topology> */
+    snprintf(m->op, sizeof m->op, "inject"); snprintf(m->elem, sizeof m->elem, "memattr");
+    static const char *nm[] = { "Capacity", "Locality", "Bandwidth", "Latency", "ReadBandwidth", "WriteLatency", "custom", "" };
+    static const char *fl[] = { "1", "2", "5", "6", "0", "3", "4294967295" };
+    unsigned long long gp = 0; const char *o = strstr(txt, "type=\"NUMANode\""); if (o) { const char *g = strstr(o, "gp_index=\""); if (g) gp = strtoull(g + 10, NULL, 10); }
+    if (hv_chance(&R, 1, 5)) gp = hv_below(&R, 1000);
+    int l = snprintf(tmp, sizeof tmp, "  <memattr name=\"%s\" flags=\"%s\">\n    <memattr_value target_obj_gp_index=\"%llu\" target_obj_type=\"%s\" value=\"%llu\"%s/>\n  </memattr>\n",
+                     nm[hv_below(&R, 8)], fl[hv_below(&R, 7)], gp, hv_chance(&R, 1, 6) ? "PU" : "NUMANode", (unsigned long long)hv_below(&R, 100000), hv_chance(&R, 1, 2) ? " initiator_cpuset=\"0x00000001\"" : hv_chance(&R, 1, 2) ? " initiator_obj_gp_index=\"1\" initiator_obj_type=\"Machine\"" : "");
+    const char *endt = NULL; for (const char *q = txt; (q = strstr(q, "</topology>")) != NULL; q++) endt = q;
+    size_t pos = endt ? (size_t)(endt - txt) : len;
+    build(&out, txt, len, pos, pos, tmp, (size_t)l);
   } else { /* unstructured */
     snprintf(m->op, sizeof m->op, "random-bytes"); m->elem[0] = 0;
     static const char *frag[] = { "<?xml version=\"1.0\"?>", "<topology version=\"3.0\">", "<object type=\"Machine\" ", "cpuset=\"0x1\" ", "<", ">", "/>", "\"", "</topology>", "<object>", "<info name=\"a\" value=\"b\"/>", "<!DOCTYPE topology SYSTEM \"hwloc2.dtd\">", "&#x0;", "&lt;" };
@@ -314,6 +368,8 @@ void hv_case(uint64_t index)
   /* mutations: 0 (valid as is) .. 3 */
   unsigned nm = hv_chance(&R, 1, 12) ? 0 : hv_chance(&R, 3, 4) ? 1 : 2 + (unsigned)hv_below(&R, 2);
   struct mut ms[4]; char *cur = base; size_t curlen = blen;
+  int shifted = 0;
+  if (!is_diff && hv_chance(&R, 1, 6)) { static const uint64_t Ks[] = { 1000000000000ULL, 4294967296ULL, 18446744073709000000ULL }; size_t nl; char *n2 = gp_shift(base, blen, &nl, Ks[hv_below(&R, 3)]); cur = n2; curlen = nl; shifted = 1; hv_stat("inputs.gp_indexes_shifted", 1); }
   for (unsigned k = 0; k < nm; k++) {
     size_t nl; char *n2 = mutate_once(cur, curlen, &nl, &ms[k]);
     if (cur != base) free(cur);
@@ -322,6 +378,7 @@ void hv_case(uint64_t index)
   char mkey[200] = ""; size_t mp = 0;
   for (unsigned k = 0; k < nm; k++) mp += (size_t)snprintf(mkey + mp, sizeof mkey - mp, "%s%s:%s.%s", k ? "+" : "", ms[k].op, ms[k].elem, ms[k].attr);
   if (!nm) snprintf(mkey, sizeof mkey, "none");
+  if (shifted) { size_t l = strlen(mkey); snprintf(mkey + l, sizeof mkey - l, "+gpshift"); }
   int byfile = hv_chance(&R, 1, 5), nul_inside = !hv_chance(&R, 1, 6);
   hv_desc("base: %s (%zu bytes); mutations: %s; entry: %s%s; backend %s\n", what, blen, mkey, byfile ? "file" : "buffer", byfile ? "" : nul_inside ? " with final NUL" : " without NUL", backend);
   if (curlen < 3000) { hv_desc("document:\n"); for (size_t i = 0; i < curlen; i++) { unsigned char c = (unsigned char)cur[i]; if ((c >= 32 && c < 127) || c == '\n') hv_desc("%c", c); else hv_desc("\\x%02x", c); } hv_desc("\n"); }
